@@ -10,6 +10,7 @@ import BioSeq.Iter
 import BioSeq.Misc
 import BioSeq.Standard
 import BioSeq.Serde
+import BioSeq.Macros
 import BioSeq.Generated.Tables
 
 open BioSeq
@@ -717,6 +718,35 @@ def special (x : Ctx) (q : String) : Option (Q String) :=
   | "amino", "tocodon" => some do
     let _ ← qlift num
     pure "terr:ambiguouscodon"
+  | "dna", "macro" | "iupac", "macro" => some do
+    let h ← qlift hexBytes
+    let some str := String.fromUTF8? (ByteArray.mk (h.map (·.toUInt8)).toArray) | throw (.badOp "utf8")
+    let cps := str.toList.map Char.toNat
+    let t := if x.name = "dna" then Macros.dnaTable p else Macros.iupacTable p
+    if cps.any (fun c => decide (c ≥ 128)) then pure "macroerr nonascii" else
+    match Macros.seqLoop t 0 cps (0, []) with
+    | .ok (n, bits) => pure s!"{n} {if bits.isEmpty then "-" else String.ofList (bits.map fun b => if b then '1' else '0')}"
+    | .error _ => pure "macroerr invalid"
+  | "dna", "macroshow" | "iupac", "macroshow" => some do
+    let h ← qlift hexBytes
+    let some str := String.fromUTF8? (ByteArray.mk (h.map (·.toUInt8)).toArray) | throw (.badOp "utf8")
+    let cps := str.toList.map Char.toNat
+    let t := if x.name = "dna" then Macros.dnaTable p else Macros.iupacTable p
+    match Macros.macroSeq t x.c.width cps with
+    | .ok (_, bits) => pure s!"{showS x bits} {hashStr (Seq.hashEvents x.c bits)}"
+    | .error _ => pure "macroerr"
+  | "dna", "macrokmer" => some do
+    let stTok ← qlift next
+    let some st := storageOf stTok | throw (.badOp "storage")
+    let h ← qlift hexBytes
+    let some str := String.fromUTF8? (ByteArray.mk (h.map (·.toUInt8)).toArray) | throw (.badOp "utf8")
+    let cps := str.toList.map Char.toNat
+    match Macros.macroKmer p x.c (Macros.dnaTable p) st cps with
+    | .ok r => do
+      let v ← qres r
+      let d ← qres (Kmer.display p x.c cps.length st v)
+      pure s!"{v} {utf8Hex d} {hashStr (Kmer.hashEvents x.c cps.length st v)}"
+    | .error _ => pure "macroerr"
   | "dna", "codontable" => some (codonTableQuery x (Gen.amino p))
   | "iupac", "codontable" => some (codonTableQuery x (Gen.amino p))
   | _, _ => none
